@@ -102,6 +102,10 @@ def run_harness(src, harness, cap_s, mem_gb, slot, extra_args=()):
             "-Z", "stubbing"] + list(extra_args)
     env = cargo_env()
     r = KResult(harness)
+    # two checks running at the same time on the same tree share this work directory: one cargo-kani per target dir at a time
+    import fcntl
+    lockf = open(tdir + ".lock", "w")
+    fcntl.flock(lockf, fcntl.LOCK_EX)
     t = time.time()
 
     def go(cmd):
@@ -120,6 +124,11 @@ def run_harness(src, harness, cap_s, mem_gb, slot, extra_args=()):
             out = out + "\n" + out2
     r.time = time.time() - t
     r.log = out
+    try:
+        fcntl.flock(lockf, fcntl.LOCK_UN)
+        lockf.close()
+    except OSError:
+        pass
     try:
         ld = os.path.join(wd, "kani-logs")
         os.makedirs(ld, exist_ok=True)
